@@ -2,11 +2,32 @@ package sim
 
 // OraclesFor returns the oracles that decide one property.
 func OraclesFor(prop string) []Oracle {
+	t := &Tracker{}
 	switch prop {
+	case "C01":
+		return []Oracle{t, &C01{}}
+	case "C02":
+		return []Oracle{t, &C02{}}
+	case "C03":
+		return []Oracle{t, &C03{}}
+	case "C04":
+		return []Oracle{t, &C04{}}
 	case "C05":
 		return []Oracle{&C05{}}
 	case "C06":
 		return []Oracle{&C06{}}
+	case "C09":
+		return []Oracle{t, &C09{}}
+	case "C10":
+		return []Oracle{t, &C10{}}
+	case "C11":
+		return []Oracle{t, &C11{}}
+	case "C12":
+		return []Oracle{t, &C12{}}
+	case "C13":
+		return []Oracle{t, &C13{}}
+	case "C14":
+		return []Oracle{t, &C14{}}
 	}
 	return nil
 }
